@@ -179,6 +179,8 @@ def check_basetype_grid(run: common.Run, drv: common.Driver, rng: random.Random,
 def traditional_opts() -> G.GenOpts:
     o = G.GenOpts()
     o.allow_ext = False
+    o.twin_scopes = 0.4  # same simple name, other scope, other width: the code generators look types up by name in places
+    o.shared_nested_names = 0.3
     return o
 
 
@@ -537,3 +539,78 @@ def check_array_grid(run: common.Run, drv: common.Driver, rng: random.Random, sc
                     if got != cells or not cok or ctx2.i != off + nb:
                         run.violation(dict(rep, kind="impl-vs-spec", observed_impl={"cells_after_decode": got.hex(), "guards": cok, "i": ctx2.i},
                                            expected_by_spec={"cells_after_decode": cells.hex(), "i": off + nb}))
+
+
+# ===================================================================== big-endian detection (C06_detect)
+DETECT_BUILDS = [
+    # (name, extra compiler flags, expected: behaves as the big-endian build)
+    ("none", (), False),
+    ("BP_BIG_ENDIAN", ("-DBP_BIG_ENDIAN",), True),
+    ("__BYTE_ORDER__", ("-U__BYTE_ORDER__", "-D__BYTE_ORDER__=__ORDER_BIG_ENDIAN__"), True),
+    ("__ARM_BIG_ENDIAN", ("-D__ARM_BIG_ENDIAN",), True),
+    ("__big_endian__", ("-D__big_endian__",), True),
+    ("__BIG_ENDIAN__", ("-D__BIG_ENDIAN__",), True),
+    ("__LITTLE_ENDIAN__=0", ("-D__LITTLE_ENDIAN__=0",), True),
+    ("__LITTLE_ENDIAN__=1", ("-D__LITTLE_ENDIAN__=1",), False),
+]
+
+
+def check_detection(run: common.Run, drv: common.Driver, rng: random.Random, sc: R.Scratch, flags: Tuple[str, ...]) -> None:
+    """every documented way of telling the runtime that the host is big-endian must select ALL big-endian paths:
+    the runtime is built with each macro in turn and probed through BpEndecodeBaseType and BpEndecodeArray (the
+    batch-copy path) on big-endian laid-out cells; the wire must be the little-endian one.  A build that is NOT
+    told so must behave as the little-endian build (same probe on little-endian cells)."""
+    for (name, extra, want_be) in DETECT_BUILDS:
+        try:
+            lib = C.runtime_lib(sc, flags + extra)
+        except Exception as e:  # a macro combination the sources reject (#error) is not this probe's subject
+            run.count(f"detect:{name}:build-refused")
+            run.notes.setdefault("detect_build_refused", []).append(f"{name}: {str(e)[-200:]}")
+            continue
+        fa = lib.BpEndecodeArray
+        fa.argtypes = [ctypes.POINTER(BpArrayDescriptor), ctypes.POINTER(C.ProcCtx), ctypes.c_void_p]
+        fa.restype = None
+        fb = lib.BpEndecodeBaseType
+        fb.argtypes = [ctypes.c_int, ctypes.POINTER(C.ProcCtx), ctypes.c_void_p]
+        fb.restype = None
+        for (n, size) in ((16, 2), (32, 4), (64, 8), (8, 1)):
+            for cap in (2, 3):
+                vals = [rng.randrange(1, 1 << n) | (0x12 << (n - 8)) for _ in range(cap)]
+                order = "big" if want_be else "little"
+                cells = b"".join(v.to_bytes(size, order) for v in vals)
+                exp = b"".join(v.to_bytes(size, "little") for v in vals)
+                run.evaluated()
+                run.nontrivial(("C06", "detect", name, n, cap))
+                run.count(f"detect:{name}")
+                # array (batch path on a little-endian build, element loop on a big-endian one)
+                desc = BpArrayDescriptor(False, cap, BpType(FLAGS["uint"], n, size, None, None, 0))
+                cb, cp = _buf(cells)
+                wb, wp = _buf(bytes(len(exp)))
+                ctx = C.ProcCtx(True, 0, wp)
+                fa(ctypes.byref(desc), ctypes.byref(ctx), cp)
+                wire, ok = _unbuf(wb, len(exp))
+                rep = {"input": {"build_macro": name, "flags": list(flags + extra), "call": "BpEndecodeArray", "nbits": n, "cap": cap,
+                                 "values": vals, "cells_layout": order}}
+                if wire != exp or not ok:
+                    run.violation(dict(rep, kind="impl-vs-spec", observed_impl={"wire": wire.hex(), "guards": ok},
+                                       expected_by_spec={"wire": exp.hex(), "note": f"build must behave as the {'big' if want_be else 'little'}-endian build"}))
+                    continue
+                # decode back
+                cb2, cp2 = _buf(bytes(len(cells)))
+                wb2, wp2 = _buf(exp)
+                ctx2 = C.ProcCtx(False, 0, wp2)
+                fa(ctypes.byref(desc), ctypes.byref(ctx2), cp2)
+                got, ok2 = _unbuf(cb2, len(cells))
+                if got != cells or not ok2:
+                    run.violation(dict(rep, kind="impl-vs-spec", observed_impl={"cells_after_decode": got.hex(), "guards": ok2},
+                                       expected_by_spec={"cells_after_decode": cells.hex()}))
+                    continue
+                # single base type
+                cb3, cp3 = _buf(cells[:size])
+                wb3, wp3 = _buf(bytes(size))
+                ctx3 = C.ProcCtx(True, 0, wp3)
+                fb(n, ctypes.byref(ctx3), cp3)
+                w3, ok3 = _unbuf(wb3, size)
+                if w3 != exp[:size] or not ok3:
+                    run.violation(dict(rep, call="BpEndecodeBaseType", kind="impl-vs-spec", observed_impl={"wire": w3.hex(), "guards": ok3},
+                                       expected_by_spec={"wire": exp[:size].hex()}))
